@@ -493,9 +493,9 @@ type faultWriter struct {
 	failAt    int
 	partial   bool
 	transient bool
-	calls    int
-	accepted []byte
-	fired    bool
+	calls     int
+	accepted  []byte
+	fired     bool
 	// curCall is set by the driver to the index of the API call in progress;
 	// firedIn records it when the fault fires.
 	curCall, firedIn int
